@@ -70,6 +70,8 @@ def defs_file(pkg: str) -> str:
         out.append(f"package {pkg};")
     out.append("message Top { message Nested { int32 x = 1; } enum NestedEnum { NE_ZERO = 0; NE_ONE = 1; } int32 v = 1; Nested n = 2; }")
     out.append("enum TopEnum { TE_ZERO = 0; TE_ONE = 1; }")
+    # a message whose name starts lower-case and contains capitals, with nested types
+    out.append("message iOSDevice { message Token { int32 t = 1; } enum Kind { K_ZERO = 0; K_ONE = 1; } int32 d = 1; }")
     return "\n".join(out) + "\n"
 
 
@@ -92,6 +94,9 @@ def refs_file(pkg: str, targets: List[str], suffix: str = "", alias_fields: bool
             out.append(f"  repeated {q(t, ty)} r{ti}_{kind} = {n};"); n += 1
             out.append(f"  map<string, {q(t, ty)}> m{ti}_{kind} = {n};"); n += 1
             oneofs.append(f"    {q(t, ty)} o{ti}_{kind} = {n};"); n += 1
+        out.append(f"  {q(t, 'iOSDevice.Token')} lc{ti}_token = {n};"); n += 1
+        out.append(f"  {q(t, 'iOSDevice.Kind')} lc{ti}_kind = {n};"); n += 1
+        out.append(f"  repeated {q(t, 'iOSDevice')} lc{ti}_devs = {n};"); n += 1
     out.append("  oneof choice {")
     out += oneofs
     out.append("  }")
